@@ -826,6 +826,10 @@ def writeByte (D : Desc) (s : St) (f : Fsm) : Byte × Bool :=
   | .nl off => (([13, 10, 0] : List Byte).getD (off + p) 0, off + p ≤ 2)
   | .main => (getB D s f p, p < D.capOf f)
 
+/-- which part of a unit a byte belongs to (ghost; mirrors the harness's attribution) -/
+def unitPart (ws : Nat) (src : WSrc) : Char :=
+  if ws == 0 then 'b' else if ws == 1 then 'm' else if src == .main then 'r' else 'a'
+
 def processIoWrite (D : Desc) (s : St) (i : SvcIn) : St × Int :=
   let (ch, inb) := writeByte D s .cmd
   let s := s.chk inb
@@ -837,7 +841,7 @@ def processIoWrite (D : Desc) (s : St) (i : SvcIn) : St × Int :=
       else s
     (s, Gen.CAT_STATUS_BUSY)
   else
-    let s := s.emit (.wr .cmd ch i.wr)
+    let s := s.emit (.wr .cmd ch i.wr (unitPart s.writeState s.writeSrc))
     if !i.wr then (s, Gen.CAT_STATUS_BUSY)
     else ({ s with position := s.position + 1 }, Gen.CAT_STATUS_BUSY)
 
@@ -852,7 +856,7 @@ def unsolicitedProcessIoWrite (D : Desc) (s : St) (i : SvcIn) : St × Int :=
       else s
     (s, Gen.CAT_STATUS_BUSY)
   else
-    let s := s.emit (.wr .uns ch i.wr)
+    let s := s.emit (.wr .uns ch i.wr (unitPart s.uwriteState s.uwriteSrc))
     if !i.wr then (s, Gen.CAT_STATUS_BUSY)
     else ({ s with uposition := s.uposition + 1 }, Gen.CAT_STATUS_BUSY)
 
